@@ -38,6 +38,12 @@ def run(ctx):
             finally:
                 gc.MULTILINE[0] = False
             evs.append(dc.ev_doc("w%dr%d" % (i, rep), wdoc, schema, route=rnd.choice(["xml", "sgml"]), label="generated-wire", expect=""))
+            # character data with white space at its edges: kept by from_etree and inside a CDATA section
+            if rnd.random() < 0.5:
+                pdoc = dc.pad_strings(doc, schema, types, rnd)
+                if pdoc is not None:
+                    evs.append(dc.ev_doc("p%dr%d" % (i, rep), pdoc, schema, route=rnd.choice(["cdata", "cdata", "etree"]),
+                                         label="generated-padded", expect=""))
             roots.add(g[0]["tag"])
             if sum(1 for t in doc if t["e"] == "leaf") >= 2:
                 ctx.nontrivial.add(dc.doc_text(doc))
